@@ -22,6 +22,7 @@ func c17(r *core.Report) {
 	c17Content(r)
 	c17Pure(r)
 	c17Servers(r)
+	c17Complete(r)
 	scratchEscapes(r, "C17.fresh", 1, "openapi2conv")
 }
 
@@ -1299,6 +1300,117 @@ func scratchEscapes(r *core.Report, rule string, floor int, rels ...string) {
 					}
 					return true
 				})
+			}
+		}
+	})
+}
+
+// c17Complete: a converter that builds its result in steps (a literal, then `result.F = ...` for the
+// fields that need work) must not hand the result back between the steps.
+func c17Complete(r *core.Report) {
+	p := r.Prog
+	info := p.Pkg("openapi2conv").TypesInfo
+	r.RunRule("C17.complete", "a converter returns its result only when it is complete: in every function of openapi2conv that initialises a result variable with a composite literal and later assigns further fields of it, no `return result, nil` stands before the last of those field assignments (returns on an error branch excepted) — what is assigned after such a return is lost for the inputs that take it", 10, func() {
+		for _, d := range p.AllDecls("openapi2conv") {
+			if d.Body == nil || d.Type.Results == nil {
+				continue
+			}
+			// result variables: `x := &T{...}` / `x := T{...}` at the top level of the body
+			for _, st := range d.Body.List {
+				as, ok := st.(*ast.AssignStmt)
+				if !ok || as.Tok != token.DEFINE || len(as.Lhs) != 1 || len(as.Rhs) != 1 {
+					continue
+				}
+				e := ast.Unparen(as.Rhs[0])
+				if u, ok := e.(*ast.UnaryExpr); ok && u.Op == token.AND {
+					e = ast.Unparen(u.X)
+				}
+				if _, isLit := e.(*ast.CompositeLit); !isLit {
+					continue
+				}
+				id, ok := as.Lhs[0].(*ast.Ident)
+				if !ok {
+					continue
+				}
+				res := info.ObjectOf(id)
+				// the last field assignment through the variable
+				last := token.NoPos
+				ast.Inspect(d.Body, func(m ast.Node) bool {
+					if a2, ok := m.(*ast.AssignStmt); ok {
+						for _, l := range a2.Lhs {
+							if sel, ok := ast.Unparen(l).(*ast.SelectorExpr); ok {
+								if x, ok := ast.Unparen(sel.X).(*ast.Ident); ok && info.ObjectOf(x) == res && a2.Pos() > last {
+									last = a2.Pos()
+								}
+							}
+						}
+					}
+					return true
+				})
+				if last == token.NoPos {
+					continue
+				}
+				// is the variable what the function returns?
+				returned := false
+				early := token.NoPos
+				ast.Inspect(d.Body, func(m ast.Node) bool {
+					if _, isLit := m.(*ast.FuncLit); isLit {
+						return false
+					}
+					ret, ok := m.(*ast.ReturnStmt)
+					if !ok || len(ret.Results) == 0 {
+						return true
+					}
+					x, ok := ast.Unparen(ret.Results[0]).(*ast.Ident)
+					if !ok || info.ObjectOf(x) != res {
+						return true
+					}
+					returned = true
+					// a success return: the error result is nil
+					if len(ret.Results) >= 2 && !core.IsNil(info, ret.Results[len(ret.Results)-1]) {
+						return true
+					}
+					if ret.Pos() < last && early == token.NoPos {
+						// a branch that fills the result its own way before returning is an alternative to
+						// what follows, not a shortcut past it
+						own := false
+						path := core.PathTo(d.Body, ret)
+						for i := len(path) - 1; i >= 0; i-- {
+							blk, ok := path[i].(*ast.BlockStmt)
+							if !ok {
+								continue
+							}
+							for _, st2 := range blk.List {
+								if st2.Pos() >= ret.Pos() {
+									break
+								}
+								if a2, ok := st2.(*ast.AssignStmt); ok {
+									for _, l := range a2.Lhs {
+										if sel, ok := ast.Unparen(l).(*ast.SelectorExpr); ok {
+											if x2, ok := ast.Unparen(sel.X).(*ast.Ident); ok && info.ObjectOf(x2) == res {
+												own = true
+											}
+										}
+									}
+								}
+							}
+							break
+						}
+						if !own {
+							early = ret.Pos()
+						}
+					}
+					return true
+				})
+				if !returned {
+					continue
+				}
+				key := fmt.Sprintf("complete:%s/%s", core.FuncName(d), id.Name)
+				if early != token.NoPos {
+					r.Bad(key, p.Pos(early), fmt.Sprintf("%s returns %s at %s although fields of it are still assigned further down (last at %s): for the inputs that take this return those fields are lost (a response without a schema loses its headers)", core.FuncName(d), id.Name, p.Pos(early), p.Pos(last)))
+				} else {
+					r.OK(key, p.Pos(as.Pos()), "returned after its last field assignment")
+				}
 			}
 		}
 	})
